@@ -430,7 +430,11 @@ fn main() {
                 }
                 distinct.outcome(&(c0.region, d0.kind, reported, r.map == undamaged, single));
                 let damaged_size: usize = files.values().map(|b| b.len()).sum();
-                if peak > (8 * damaged_size + (1 << 20)) as isize {
+                // proportional = an affine bound: 8 x the bytes read plus a fixed 4 MiB. The fixed part covers the
+                // deserialiser's capped pre-allocation (serde reserves at most 1 MiB of elements for a claimed
+                // collection length; the hash table rounds that up to ~2.1 MiB of buckets), which does not grow
+                // with the claimed length. An allocation taken from an unchecked length prefix exceeds it.
+                if peak > (8 * damaged_size + (4 << 20)) as isize {
                     run.violation_lazy("C07.mem", fts(&[]), || (wit(json!({"peak_live_bytes": peak, "total_file_bytes": damaged_size})), format!("recovery held {peak} live bytes for {damaged_size} bytes of files")));
                 }
                 // genuine: every recovered value was written for that key by this history
